@@ -180,6 +180,23 @@ func (b *builtWorld) poolPrims(pool string) map[string][]ref.Prim {
 	return out
 }
 
+// claimPrims adds every expression the pods sharing a NodeClaim carry to the pool's own: the NodeClaim's requirement on
+// a key is their conjunction, which is where the representation loses "label must be present".
+func claimPrims(pool map[string][]ref.Prim, pods []*corev1.Pod) map[string][]ref.Prim {
+	out := map[string][]ref.Prim{}
+	for k, v := range pool {
+		out[k] = append(out[k], v...)
+	}
+	for _, p := range pods {
+		for _, term := range ref.PodTerms(p) {
+			for k, prims := range term {
+				out[k] = append(out[k], prims...)
+			}
+		}
+	}
+	return out
+}
+
 // customCombos enumerates the label values the NodeClaim may end up with for user-defined (not well-known) keys.
 func customCombos(reqs scheduling.Requirements) []map[string]string {
 	combos := []map[string]string{{}}
@@ -344,7 +361,29 @@ func (b *builtWorld) checkNewNodeClaim(nc *pscheduling.NodeClaim, c *ev.Ctx, st 
 			}
 		}
 		if !admitted {
-			c.Violate(where+":"+firstReject.Rule, "NodeClaim of pool %s with pods %s may be launched as %s but no available compatible offering admits them; e.g. %s/%s/%s: %s; requirements: %s",
+			// would some choice be admitted if an emptied / complement requirement were satisfied by an absent label?
+			rule := firstReject.Rule
+			for _, ch := range choices {
+				ok := true
+				for _, custom := range combos {
+					node := newNodeView(nc, it, ch, custom)
+					var residents []*corev1.Pod
+					for _, ds := range b.DaemonSets {
+						if daemonRunsOn(ds, node) {
+							residents = append(residents, daemonTemplatePod(ds))
+						}
+					}
+					if (ref.NodeCase{Node: node, Allocatable: it.Allocatable(ch.of), Residents: residents, Placed: placed, PoolPrims: claimPrims(b.poolPrims(nc.NodePoolName), placed), PresenceLossy: true}).Admissible() != nil {
+						ok = false
+						break
+					}
+				}
+				if ok {
+					rule = "affinity:presence-lost"
+					break
+				}
+			}
+			c.Violate(where+":"+rule, "NodeClaim of pool %s with pods %s may be launched as %s but no available compatible offering admits them; e.g. %s/%s/%s: %s; requirements: %s",
 				nc.NodePoolName, shortPods(placed), it.Name, firstChoice.of.Zone, firstChoice.of.CapacityType, firstChoice.os, firstReject, nc.Requirements)
 		}
 	}
